@@ -166,16 +166,23 @@ func (i *IRCServer) VerifConfigExtra() map[string]interface{} {
 
 // VerifLookup classifies GetSession's answer for id.
 func (i *IRCServer) VerifLookup(id uint64) string {
-	_, err := i.GetSession(robust.Id{Id: id})
-	switch err {
-	case nil:
-		return "ok"
-	case ErrNoSuchSession:
-		return "nosuch"
-	case ErrSessionNotYetSeen:
-		return "notyet"
+	class := func(err error) string {
+		switch err {
+		case nil:
+			return "ok"
+		case ErrNoSuchSession:
+			return "nosuch"
+		case ErrSessionNotYetSeen:
+			return "notyet"
+		}
+		return "other"
 	}
-	return "other"
+	_, err := i.GetSession(robust.Id{Id: id})
+	_, aerr := i.GetAuth(robust.Id{Id: id}) // the lookup the HTTP API performs for every request
+	if class(err) != class(aerr) {
+		return "GetSession:" + class(err) + "/GetAuth:" + class(aerr)
+	}
+	return class(err)
 }
 
 // VerifSetLastActivity sets the last activity of every session to now-age(id).
